@@ -38,6 +38,8 @@ type Carrier struct {
 	PartialWrite int
 	// WriteDelay slows every Write down (widens the window for a concurrent Close).
 	WriteDelay time.Duration
+	// BlockWrite makes the n-th Write block until the carrier is closed locally (a peer that stopped reading).
+	BlockWrite int
 	// Quiet suppresses cread events (replay of many fragmentations).
 	Quiet bool
 }
@@ -145,8 +147,13 @@ func (c *Carrier) Write(p []byte) (int, error) {
 	c.mu.Lock()
 	defer c.mu.Unlock()
 	c.nwrite++
+	if c.BlockWrite == c.nwrite {
+		for !c.closed {
+			c.cond.Wait()
+		}
+	}
 	if c.closed {
-		c.logfLocked("cwrite", "b", []int{}, "err", "closed")
+		c.logfLocked("cwrite", "b", []int{}, "att", ints(p), "err", "closed")
 		return 0, errors.New("use of closed carrier")
 	}
 	if c.FailWrite == c.nwrite {
@@ -155,11 +162,11 @@ func (c *Carrier) Write(p []byte) (int, error) {
 			n = len(p)
 		}
 		c.out = append(c.out, p[:n]...)
-		c.logfLocked("cwrite", "b", ints(p[:n]), "err", ErrCarrier.Error())
+		c.logfLocked("cwrite", "b", ints(p[:n]), "att", ints(p), "err", ErrCarrier.Error())
 		return n, ErrCarrier
 	}
 	c.out = append(c.out, p...)
-	c.logfLocked("cwrite", "b", ints(p), "err", "")
+	c.logfLocked("cwrite", "b", ints(p), "att", ints(p), "err", "")
 	return len(p), nil
 }
 
